@@ -1362,7 +1362,69 @@ def group_rules(rules):
     return groups
 
 
-def run_lian(files, rules, keep_from_code=False, propagation=None, read_json=False):
+class _SinkTrace(object):
+    """Records, for every reported flow, which operands of the sink statement carried the source's tag when
+    TaintRuleApplier.get_sink_tag_by_rules was evaluated (each (source, sink) pair has a fresh TaintEnv, so any
+    non-zero tag belongs to that source).  Pure observation: results are passed through unchanged."""
+
+    def __init__(self):
+        self.last = None
+        self.by_flow = {}
+        self.restore = []
+
+    def install(self):
+        from lian.taint import taint_analysis as ta
+        from lian.config.constants import SFG_EDGE_KIND
+        trace = self
+        orig_tag = ta.TaintRuleApplier.get_sink_tag_by_rules
+        orig_path = ta.PathFinder.reconstruct_define_use_path
+
+        def get_sink_tag_by_rules(self_, node):
+            res = orig_tag(self_, node)
+            ops = []
+            try:
+                for pred in self_.sfg.predecessors(node):
+                    ed = self_.sfg.get_edge_data(pred, node)
+                    if not ed:
+                        continue
+                    for data in ed.values():
+                        if data.edge_type != SFG_EDGE_KIND.SYMBOL_IS_USED:
+                            continue
+                        if self_.taint_analysis.get_symbol_with_states_tag(pred):
+                            ops.append((int(data.pos), str(pred.name)))
+            except Exception:
+                ops = None
+            trace.last = (getattr(node, "def_stmt_id", None), str(getattr(node, "name", "")), ops)
+            return res
+
+        def reconstruct_define_use_path(self_, source, sink):
+            flow = orig_path(self_, source, sink)
+            if trace.last is not None and trace.last[0] == sink.def_stmt_id:
+                trace.by_flow.setdefault((flow.source_stmt_id, flow.sink_stmt_id), []).append(trace.last)
+            return flow
+        ta.TaintRuleApplier.get_sink_tag_by_rules = get_sink_tag_by_rules
+        ta.PathFinder.reconstruct_define_use_path = reconstruct_define_use_path
+        self.restore = [lambda: setattr(ta.TaintRuleApplier, "get_sink_tag_by_rules", orig_tag),
+                        lambda: setattr(ta.PathFinder, "reconstruct_define_use_path", orig_path)]
+
+    def uninstall(self):
+        for r in self.restore:
+            r()
+        self.restore = []
+
+
+def lian_operand(op, pos):
+    """position of a used symbol of a sink statement -> the vocabulary of rule targets"""
+    if op == "call_stmt":
+        return "callee" if pos == 0 else "arg%d" % (pos - 1)
+    if op == "object_call_stmt":
+        return "receiver" if pos == 0 else ("field" if pos == 1 else "arg%d" % (pos - 2))
+    if op == "field_write":
+        return "receiver" if pos == 0 else ("field" if pos == 1 else "value")
+    return "pos%d" % pos
+
+
+def run_lian(files, rules, keep_from_code=False, propagation=None, read_json=False, trace_sinks=False):
     """Run the full pipeline in-process.  -> dict(flows=set of (src file, src line, sink file, sink line),
     detail=[(src op, sink op, ...)], exc=None|str, nflows=int)."""
     from harness import lianrun, common
@@ -1376,9 +1438,18 @@ def run_lian(files, rules, keep_from_code=False, propagation=None, read_json=Fal
             entry=[{"method_list": ["%unit_init"]}],
             source=group_rules(rules["source"]), sink=group_rules(rules["sink"]),
             propagation=propagation if propagation is not None else shipped_propagation(common.REPO))
-        res = lianrun.analyze(files, settings_dir=sd, lang="python", workdir=d, keep_from_code_rules=keep_from_code,
-                              quiet=not read_json)
-        out = {"flows": set(), "detail": [], "exc": None, "nflows": 0}
+        trace = None
+        if trace_sinks:
+            lianrun._import()
+            trace = _SinkTrace()
+            trace.install()
+        try:
+            res = lianrun.analyze(files, settings_dir=sd, lang="python", workdir=d, keep_from_code_rules=keep_from_code,
+                                  quiet=not read_json)
+        finally:
+            if trace is not None:
+                trace.uninstall()
+        out = {"flows": set(), "detail": [], "exc": None, "nflows": 0, "operands": {}}
         if read_json:
             # second observation point: what a non-quiet run writes to taint/taint_data_flow.json
             out["json_flows"] = None
@@ -1412,6 +1483,11 @@ def run_lian(files, rules, keep_from_code=False, propagation=None, read_json=Fal
                     out["nflows"] += 1
                     out["flows"].add((a[0], a[1], b[0], b[1]))
                     out["detail"].append((a[0], a[1], a[2], b[0], b[1], b[2]))
+                    if trace is not None:
+                        names = out["operands"].setdefault((a[0], a[1], b[0], b[1]), set())
+                        for (_sid, op, ops) in trace.by_flow.get((f.source_stmt_id, f.sink_stmt_id), []):
+                            for pos, nm in (ops or []):
+                                names.add(lian_operand(op, pos))
         return out
     finally:
         shutil.rmtree(d, ignore_errors=True)
